@@ -82,6 +82,8 @@ type cexRec struct {
 	Choices []int             `json:"choices"`
 	Detail  string            `json:"detail,omitempty"`
 	PC      string            `json:"pc,omitempty"`
+	Reach   map[string]int    `json:"reach,omitempty"`
+	Observe []string          `json:"observe,omitempty"`
 }
 
 type PathResult struct {
